@@ -107,6 +107,8 @@ def f_parse_float(v):
     if isinstance(v, float):
         return v
     if FLOAT_RE.match(v):
+        if float(v) in (float("inf"), float("-inf")):
+            raise Unspec()              # a numeral that overflows a double: not documented (and cannot be shown in a report)
         return float(v)
     if v.strip().lower().lstrip("+-") in ("inf", "infinity", "nan"):
         raise Unspec()
@@ -428,7 +430,7 @@ def shard(ctx):
             ctx.res.distinct.add(("json-roundtrip", len(json.dumps(d)) // 50))
     # ---- random strings through the unary string functions
     n = 60 if ctx.quick else 40000
-    alphabet = "abXY z09/%+-_.é"
+    alphabet = "abXYeE z01925/%+-_.é"
     for t in range(n):
         s = "".join(rng.choice(alphabet) for _ in range(rng.randint(0, 8)))
         fname = rng.choice(["to_upper", "to_lower", "url_decode", "parse_int", "parse_float", "parse_boolean", "parse_string", "parse_char"])
